@@ -443,7 +443,7 @@ fn writer_body(body: Body, prefix: &[usize]) -> RunResult {
       status_sender: wstatus_tx,
       security_plugins: None,
     };
-    let mut w = crate::rtps::writer::Writer::new(wi, udp(), mio_extras::timer::Builder::default().build(), ps_tx);
+    let mut w = crate::rtps::writer::Writer::new(wi, udp(), mio_extras::timer::Builder::default().build().into(), ps_tx);
     let rg = super::sim_writer::rguid(0);
     if body != Body::AsyncWrite {
       let mut rp = RtpsReaderProxy::new(rg, q.clone(), false);
